@@ -57,7 +57,7 @@ pub struct ScanCase {
 /// (value as decimal string or None on overflow, offset) or the panic text.
 type ScanRes = Result<(Option<String>, usize), String>;
 
-fn call_scanner(r: &mut DeferredReader, ty: u8, signed_fn: bool, multi: bool, offset: usize) -> ScanRes {
+pub fn call_scanner(r: &mut DeferredReader, ty: u8, signed_fn: bool, multi: bool, offset: usize) -> ScanRes {
     macro_rules! go {
         ($t:ty) => {{
             let res: (Option<$t>, usize) = match (signed_fn, multi) {
@@ -133,7 +133,19 @@ pub fn reference_scan(data: &[u8], offset: usize, signed_fn: bool, ty: u8) -> (O
 }
 
 fn prepared_reader<'a>(case: &ScanCase, data: &Rc<Vec<u8>>) -> (DeferredReader<'a>, SimSource) {
+    prepared_reader_poisoned(case, data, None)
+}
+
+/// With `poison`: the source scribbles that byte over the unused rest of every slice it is
+/// offered, and the first read is offered 16 bytes more than it delivers, so that an over-read
+/// past the buffered data sees the poison instead of running off the heap block.
+pub fn prepared_reader_poisoned<'a>(
+    case: &ScanCase,
+    data: &Rc<Vec<u8>>,
+    poison: Option<u8>,
+) -> (DeferredReader<'a>, SimSource) {
     let mut cfg = case.rest.clone();
+    cfg.poison = poison;
     let b = case.buffered.min(data.len());
     if b > 0 {
         cfg.steps.insert(0, Step::Deliver(b));
@@ -141,7 +153,7 @@ fn prepared_reader<'a>(case: &ScanCase, data: &Rc<Vec<u8>>) -> (DeferredReader<'
     let src = SimSource::new(data.clone(), cfg);
     let mut r = DeferredReader::from_read(src.clone());
     if b > 0 {
-        r.set_chunk_size(b);
+        r.set_chunk_size(if poison.is_some() { b + 16 } else { b });
         let _ = r.request(b);
     }
     r.set_chunk_size(case.chunk.max(1));
